@@ -20,6 +20,7 @@ largest number of elements/characters any intermediate value would have with
 no quota at all (used only to keep the enumerated space inside safe
 allocation sizes).
 """
+import collections
 import itertools
 
 KINDS = ('list', 'dict', 'set', 'iter')
@@ -132,9 +133,9 @@ def _stays_hashable(sub, tuples_to_lists):
 def same_image(value, img):
     """Exact comparison of a finalised value with an image (container types
     included, sets order-insensitive)."""
-    if isinstance(img, tuple) and len(img) == 2 and img[0] in ('SET', 'SETLIST'):
-        want = set if img[0] == 'SET' else list
-        if type(value) is not want or len(value) != len(img[1]):
+    if isinstance(img, tuple) and len(img) == 2 and img[0] in ('SET', 'SETLIST', 'VIEW'):
+        want = {'SET': (set,), 'SETLIST': (list,), 'VIEW': (set, list)}[img[0]]
+        if type(value) not in want or len(value) != len(img[1]):
             return False
         rest = list(value)
         for x in img[1]:
@@ -168,6 +169,166 @@ def max_collection(value):
             best = max(best, len(v))
             stack.extend(v)
     return best
+
+
+# ---------------------------------------------------------------------------
+# (r) result kinds: every kind of collection a function can return, as the result or nested in it
+# ---------------------------------------------------------------------------
+# A spec is (wrappers, kind, size, origin): a leaf collection of `size` elements of one of RK_KINDS,
+# inside 0..depth one-element containers built by the expression (`[X]`, `{w => X}`, `set(X)`).
+# origin says where the leaf comes from:
+#   data  the input document `$` (converted by the library on the way in: list/tuple -> yaql list, set/frozenset ->
+#         yaql set, dict -> yaql dict, iterator/generator -> lazy sequence); the dictionary views are
+#         `$.keys()`, `$.values()`, `$.items()` of an input dictionary of `size` entries
+#   var   the same input held by the context variable $v
+#   expr  built inside the expression from literals ([0, 1], set(0, 1), {k0 => 0, k1 => 1}, [0, 1].select($))
+#   host  returned as a raw Python object by a function mk() registered by the host (what a library
+#         function may return as well: mutable list, tuple, set, frozenset, dict, the three views of a
+#         plain dict, iterator, generator, deque, range)
+# Elements: list-like kinds hold 0..size-1, dicts {'k0': 0, ...}, keys 'k0'.., values 0.., items the pairs.
+RK_WRAPPERS = ('list', 'dict', 'set')
+RK_VIEWS = ('keys', 'values', 'items')
+RK_KINDS = {
+    'data': ('list', 'tuple', 'set', 'frozenset', 'dict', 'keys', 'values', 'items', 'iter', 'generator'),
+    'var': ('list', 'tuple', 'set', 'frozenset', 'dict', 'keys', 'values', 'items', 'iter', 'generator'),
+    'expr': ('list', 'set', 'dict', 'keys', 'values', 'items', 'iter'),
+    'host': ('list', 'tuple', 'set', 'frozenset', 'dict', 'keys', 'values', 'items', 'iter', 'generator',
+             'deque', 'range'),
+}
+RK_ORIGINS = tuple(RK_KINDS)
+
+
+def rk_specs(n, depth):
+    out = []
+    for d in range(depth + 1):
+        for wrappers in itertools.product(RK_WRAPPERS, repeat=d):
+            for origin in RK_ORIGINS:
+                for kind in RK_KINDS[origin]:
+                    for size in sizes_around(n):
+                        out.append((wrappers, kind, size, origin))
+    return out
+
+
+def _rk_dict(size):
+    return {'k%d' % i: i for i in range(size)}
+
+
+def rk_input(kind, size):
+    """The host value given as data / variable (a dictionary for the view kinds); fresh per evaluation."""
+    if kind in ('dict',) + RK_VIEWS:
+        return _rk_dict(size)
+    return {'list': list, 'tuple': tuple, 'set': set, 'frozenset': frozenset, 'iter': iter,
+            'generator': lambda r: (i for i in r)}[kind](range(size))
+
+
+def rk_host(kind, size):
+    """The raw Python object mk() returns."""
+    if kind == 'range':
+        return range(size)
+    if kind == 'deque':
+        return collections.deque(range(size))
+    if kind in RK_VIEWS:
+        return getattr(_rk_dict(size), kind)()
+    return rk_input(kind, size)
+
+
+def rk_text(spec):
+    wrappers, kind, size, origin = spec
+    if origin == 'expr':
+        if kind in ('dict',) + RK_VIEWS:
+            text = '{%s}' % ', '.join('k%d => %d' % (i, i) for i in range(size))
+        elif kind == 'set':
+            text = 'set(%s)' % ', '.join(str(i) for i in range(size))
+        else:
+            text = '[%s]' % ', '.join(str(i) for i in range(size)) + ('.select($)' if kind == 'iter' else '')
+    else:
+        text = {'data': '$', 'var': '$v', 'host': 'mk()'}[origin]
+    if kind in RK_VIEWS and origin != 'host':
+        text += '.%s()' % kind
+    for w in reversed(wrappers):
+        text = {'list': '[%s]', 'dict': '{w => %s}', 'set': 'set(%s)'}[w] % text
+    return text
+
+
+def _rk_leaf_hashable(kind, origin):
+    """Can the value the expression holds BEFORE finalisation be hashed?  yaql lists/sets/dicts (tuple, frozenset,
+    FrozenDict) can, raw host list/set/dict/deque cannot, keys/items views cannot (they are sets that define
+    __eq__), values views and iterators hash by identity."""
+    if kind in ('list', 'set', 'dict'):
+        return origin != 'host'
+    return kind not in ('keys', 'items', 'deque')
+
+
+def _rk_hashable(wrappers, kind, origin):
+    if not wrappers:
+        return _rk_leaf_hashable(kind, origin)
+    return wrappers[0] == 'set' or _rk_hashable(wrappers[1:], kind, origin)
+
+
+def rk_buildable(spec):
+    """`set(X)` needs a hashable X, and flattens X when it is an iterator (then X is no member)."""
+    wrappers, kind, _size, origin = spec
+    for i, w in enumerate(wrappers):
+        if w == 'set':
+            rest = wrappers[i + 1:]
+            if not _rk_hashable(rest, kind, origin) or (not rest and kind in ('iter', 'generator')):
+                return False
+    return True
+
+
+def rk_too_large(spec, n):
+    """Statement: no collection with more than N elements at any depth of a result.  Every wrapper holds one
+    element, the leaf `size`, every pair of an items view two."""
+    wrappers, kind, size, _origin = spec
+    if n < 0:
+        return False
+    return size > n or (bool(wrappers) and n < 1) or (kind == 'items' and size >= 1 and n < 2)
+
+
+def _rk_final_hashable(wrappers, kind, origin, tuples_to_lists):
+    """Only a tuple of hashables survives finalisation as something hashable."""
+    if tuples_to_lists:
+        return False
+    if wrappers:
+        return wrappers[0] == 'list' and _rk_final_hashable(wrappers[1:], kind, origin, tuples_to_lists)
+    return kind == 'tuple' or (kind == 'list' and origin != 'host')
+
+
+def rk_unhashable_final(spec, tuples_to_lists, sets_to_lists):
+    """The finalised image would need an unhashable member inside a real set (C10's question, not C08's):
+    a converted member of a set(...) wrapper, or the pairs of a non-empty items view as lists."""
+    wrappers, kind, size, origin = spec
+    if sets_to_lists:
+        return False
+    for i, w in enumerate(wrappers):
+        if w == 'set' and not _rk_final_hashable(wrappers[i + 1:], kind, origin, tuples_to_lists):
+            return True
+    return kind == 'items' and size >= 1 and tuples_to_lists
+
+
+def rk_image(spec, tuples_to_lists, sets_to_lists):
+    """The finalised image (same_image() notation).  Sequences: list, or the type they had when
+    convertTuplesToLists is off (yaql lists are tuples, a raw host list stays a list); sets: set | list per
+    convertSetsToLists; every other iterable (values view, iterators, deque, range): list.  The keys and items
+    views are documented as iterators over the keys / pairs and are sets for Python: whether they come back as
+    a list or a set is not C08's question ('VIEW' accepts both, order-insensitively)."""
+    wrappers, kind, size, origin = spec
+    seq = list if tuples_to_lists else tuple
+    if kind in ('list', 'tuple'):
+        img = list(range(size)) if kind == 'list' and origin == 'host' else seq(range(size))
+    elif kind in ('set', 'frozenset'):
+        img = ('SETLIST' if sets_to_lists else 'SET', list(range(size)))
+    elif kind == 'dict':
+        img = _rk_dict(size)
+    elif kind == 'keys':
+        img = ('VIEW', list(_rk_dict(size)))
+    elif kind == 'items':
+        img = ('VIEW', [seq(p) for p in _rk_dict(size).items()])
+    else:
+        img = list(range(size))
+    for w in reversed(wrappers):
+        img = seq([img]) if w == 'list' else {'w': img} if w == 'dict' else ('SETLIST' if sets_to_lists else 'SET', [img])
+    return img
 
 
 # ---------------------------------------------------------------------------
